@@ -60,6 +60,8 @@ def isFirstChild (id : Nat) (res : Int) : Outcome Bool :=
     .ok (top6 % cnt == 0)
   else
     i32Sub Gen.MAX_RESOLUTION res >>= fun d =>
+    -- `2 * (MAX_RESOLUTION - resolution) as u32`: a negative difference wraps to >= 2^31 as u32 and the doubling overflows
+    if d < 0 then .panic .mulOverflow else
     let sPos := (2 * d.toNat) % 2 ^ 32
     u64Shl 3 sPos >>= fun mask => .ok ((id &&& mask) == 0)
 
@@ -67,6 +69,7 @@ def getStride (res : Int) : Outcome Nat :=
   if res < 2 then u64Shl 1 Gen.HILBERT_START_BIT
   else
     i32Sub Gen.MAX_RESOLUTION res >>= fun d =>
+    if d < 0 then .panic .mulOverflow else
     u64Shl 1 ((2 * d.toNat) % 2 ^ 32)
 
 /-- `get_num_cells` (after the saturating fix): total on every `i32`. -/
